@@ -125,6 +125,7 @@ type TrialCfg struct {
 	ExpiryTTL  int64    `json:"expiry_ttl,omitempty"` // > 0: write-reset expiry with this ttl and a manual clock moved by the workers
 	ExpAccess  bool     `json:"exp_access,omitempty"` // the expiry policy is access-reset (reads extend the deadline)
 	LinExp     bool     `json:"lin_exp,omitempty"`    // judged by the map-with-deadlines linearizability model
+	ChurnG     int      `json:"churn_goroutines,omitempty"` // > 1: that many churn goroutines with key ranges of their own, started together
 }
 
 // Trial is a running / finished trial.
@@ -154,6 +155,7 @@ type Trial struct {
 	churnReads     atomic.Int64
 	Clock          *phaseClock
 	bodyWrites     sync.WaitGroup // writes issued by other goroutines while an iteration holds the eviction lock
+	churnArrived   [4]atomic.Int32
 	statSamples    atomic.Int64
 	statDecrease   atomic.Pointer[string]
 }
@@ -179,6 +181,7 @@ func WeightOf(v int, max uint64) uint32 {
 }
 
 var siteSchedAfterWriteLoaded = siteIndex("schedAfterWrite.loaded")
+var siteMapResizeWaited = siteIndex("map.resize.waited")
 
 var progress atomic.Int64 // operations completed in this process (watchdog)
 
@@ -253,6 +256,13 @@ func (t *Trial) hook(site int) {
 	if site == t.tableLoaded && t.sleeping.Load() == 1 {
 		if r := t.rnd(); r%3 == 0 {
 			time.Sleep(time.Duration((r>>24)%400+30) * time.Microsecond)
+		}
+		return
+	}
+	if t.Cfg.ChurnG > 1 && site == siteMapResizeWaited {
+		// whoever waited for somebody else's resize is held up before it goes on: the next resize is under way by then
+		if r := t.rnd(); r%2 == 0 {
+			time.Sleep(time.Duration((r>>24)%300+20) * time.Microsecond)
 		}
 		return
 	}
@@ -607,9 +617,12 @@ func (t *Trial) worker(w int, rng *core.Rng, out *[]Rec) {
 }
 
 // churn inserts and removes other keys so that the table grows and shrinks during the trial.
-func (t *Trial) churn(stop *atomic.Bool, rng *core.Rng) {
-	base := 1_000_000
+func (t *Trial) churn(stop *atomic.Bool, rng *core.Rng, idx int) {
+	base := 1_000_000 + idx*50_000 // (below the sleeper's key 2 000 000)
 	n := t.Cfg.Churn
+	if t.Cfg.ChurnG > 1 {
+		n = max(40, n/4)
+	}
 	// Only this goroutine touches the churn keys: without a bound and without expiration each of them
 	// behaves as in a sequential map, whatever the table does meanwhile (growing, shrinking).
 	exact := t.Cfg.SizeKind == 0 && t.Cfg.ExpiryTTL == 0
@@ -617,7 +630,21 @@ func (t *Trial) churn(stop *atomic.Bool, rng *core.Rng) {
 		msg := fmt.Sprintf(format, a...)
 		t.churnViolation.CompareAndSwap(nil, &msg)
 	}
-	for round := 0; !stop.Load() && round < 4; round++ {
+	if t.Cfg.ChurnG > 1 {
+		// every churn goroutine gets here: they begin together
+		t.churnArrived[0].Add(1)
+		for t.churnArrived[0].Load() < int32(t.Cfg.ChurnG) {
+			runtime.Gosched()
+		}
+	}
+	for round := 0; (round == 0 && t.Cfg.ChurnG > 1 || !stop.Load()) && round < 4; round++ {
+		if t.Cfg.ChurnG > 1 && round > 0 {
+			// the churn goroutines begin each round together (whoever is left when the workload stops gives up)
+			t.churnArrived[round].Add(1)
+			for t.churnArrived[round].Load() < int32(t.Cfg.ChurnG) && !stop.Load() {
+				runtime.Gosched()
+			}
+		}
 		m := 0
 		for i := 0; i < n && (round == 0 || !stop.Load()); i++ { // the first round always runs in full
 			t.Cache.Set(base+i, -(i + 1))
@@ -669,13 +696,22 @@ func (t *Trial) Run() {
 	var cwg sync.WaitGroup
 	if cfg.Churn > 0 {
 		var churnDone atomic.Bool
-		cwg.Add(1)
-		go func() {
-			defer cwg.Done()
-			defer churnDone.Store(true)
-			<-start
-			t.churn(&stop, core.NewRng(core.Derive(cfg.Seed, 18)))
-		}()
+		var churnLeft atomic.Int32
+		ng := max(1, cfg.ChurnG)
+		churnLeft.Store(int32(ng))
+		for g := 0; g < ng; g++ {
+			cwg.Add(1)
+			go func(g int) {
+				defer cwg.Done()
+				defer func() {
+					if churnLeft.Add(-1) == 0 {
+						churnDone.Store(true)
+					}
+				}()
+				<-start
+				t.churn(&stop, core.NewRng(core.Derive(cfg.Seed, 18, uint64(g))), g)
+			}(g)
+		}
 		if cfg.SizeKind == 0 && cfg.ExpiryTTL == 0 {
 			// the sleeper: the only goroutine that uses its key; every write of it is read back at once.
 			// Its writes are held up right after they loaded the table pointer (see hook) while the churn
